@@ -4,6 +4,7 @@ CONSTANTS
   Vals = {0, 1}
   IsBlob = FALSE
   SetterMarksDirty = TRUE
+  ExplicitSha1Recomputes = TRUE
   ChunkedResetsSha = TRUE
 INVARIANT TypeOK
 INVARIANT IdIsHash
